@@ -87,12 +87,16 @@ def scenarios(ctx):
             init = stage_prefix(persist_loss) + (('setid', 0, id0),)
             out.append(Std('wrap-%d%s' % (id0, '-resumed' if persist_loss else ''), profile='pubsub', init=init,
                            connects=[(False, 0, 4)], pub_qos=(1, 2), closing=False,
-                           budgets=dict(pub=8 if not q else 4, sub=1, unsub=1, ack=1 if q else 2)))
+                           budgets=dict(pub=8 if not q else 4, sub=1, unsub=1, ack=1 if q else 2, misack=1)))
     for id0 in ((65535,) if q else (65535, 0, 65534)):
         out.append(Std('wrap-heldback-w1-%d' % id0, profile='pubsub', closing=False,
                        init=(('connect', 0, True, 0, 4), ('connack', 0, 0, False), ('pub', 0, 2), ('pub', 0, 1), ('pub', 0, 2),
                              ('ack', 0, 'PUBREC', ('r', 1)), ('setid', 0, id0)),
                        pub_qos=(1, 2), budgets=dict(pub=3, sub=1, unsub=1, ack=2)))
+    out.append(Std('wrap-window16', profile='pubsub', closing=False,
+                   init=(('connect', 0, False, 0, 3), ('connack', 0, 0, False), ('setwin', 0, 16)) + (('pub', 0, 1),) * 16 +
+                        (('setid', 0, 65535),),
+                   pub_qos=(1,), budgets=dict(pub=1, sub=2, unsub=1, ack=1)))
     out.append(Std('wrap-queue-q0', profile='pub', closing=False,
                    init=(('connect', 0, True, 0, 4), ('connack', 0, 0, False), ('pub', 0, 1), ('pub', 0, 1), ('pub', 0, 0), ('pub', 0, 1),
                          ('setid', 0, 65535)),
